@@ -14,6 +14,8 @@ Three legs:
     and find_undeclared_nested (C18/NMeta.v) = undeclared_variables(true) as sets; the lookups recorded by
     the error-carrying interpreter (C18/XInterp.v) = the keys recorded by the engine, for renders that
     finish AND for renders that fail (lookups up to the failure, same error kind).
+ 2b. the same programs with statements wrapped into named blocks and `self.name()` calls placed elsewhere
+    (engine only - the Coq model has no blocks): asked <= reported + globals.
  3. proof audit of Props/C18.v (undeclared_sound for every outcome, nested mode, ...).
 Renders run with debug info off; the lookups of the error-reporting path with debug info on are the
 known finding `debug-info-lookups`, which is re-observed and kept apart from everything else.
@@ -64,11 +66,15 @@ if not isinstance(langenc.ATTRS, AttrIntern):
         return _enc_stmt(st, N)
 
     def src_expr(e):
+        if e[0] == "selfcall":
+            return "self." + e[1] + "()"
         if e[0] == "slice":
             return proggen.expr_src(e[1]) + "[" + ":".join("" if b is None else proggen.expr_src(b) for b in e[2:5]) + "]"
         return _src_expr(e)
 
     def src_stmt(st):
+        if st[0] == "block":
+            return "{% block " + st[1] + " %}" + proggen.body_src(st[2]) + "{% endblock %}"
         if st[0] == "setattr":
             return "{% set " + st[1] + "." + st[2] + " = " + proggen.expr_src(st[3]) + " %}"
         return _src_stmt(st)
@@ -170,6 +176,22 @@ HOLES = [
     ("callblock-unknown-macro", "{% call(V) nomacro() %}{{ E }}{% endcall %}"),
     ("block-body", "{% block b %}{{ E }}{% endblock %}"), ("block-after-set", "{% set V = 1 %}{% block b %}{{ E }}{% endblock %}"),
     ("self-block-call", "{% block b %}{{ E }}{% endblock %}{{ self.b() }}"),
+    # a block is also rendered through self.name(), from places where the names around its definition are not bound
+    ("block-in-for-self-after", "{% for V in l %}{% block b %}{{ E }}{% endblock %}{% endfor %}{{ self.b() }}"),
+    ("block-in-for-body-self-after", "{% for y in l %}{% block b %}{{ E }}{% endblock %}{% endfor %}{{ self.b() }}"),
+    ("block-in-for-self-before", "{{ self.b() }}{% for V in l %}{% block b %}{{ E }}{% endblock %}{% endfor %}"),
+    ("block-in-with-self-after", "{% with V = 1 %}{% block b %}{{ E }}{% endblock %}{% endwith %}{{ self.b() }}"),
+    ("block-in-if-set-self-after", "{% if t %}{% set V = 1 %}{% block b %}{{ E }}{% endblock %}{% endif %}{{ self.b() }}"),
+    ("block-after-set-self-before", "{{ self.b() }}{% set V = 1 %}{% block b %}{{ E }}{% endblock %}"),
+    ("block-after-set-self-in-macro", "{% set V = 1 %}{% block b %}{{ E }}{% endblock %}{% macro m() %}{{ self.b() }}{% endmacro %}{{ m() }}"),
+    ("block-after-set-self-in-callblock", "{% set V = 1 %}{% block b %}{{ E }}{% endblock %}{% macro m() %}{{ caller() }}{% endmacro %}{% call m() %}{{ self.b() }}{% endcall %}"),
+    ("block-in-for-self-in-other-block", "{% for V in l %}{% block a %}{{ E }}{% endblock %}{% endfor %}{% block c %}{{ self.a() }}{% endblock %}"),
+    ("block-in-for-self-via-two-blocks", "{% for V in l %}{% block a %}{{ E }}{% endblock %}{% block c %}{{ self.a() }}{% endblock %}{% endfor %}{{ self.c() }}"),
+    ("block-in-nested-for-self-in-outer", "{% for y in l %}{% for V in l %}{% block b %}{{ E }}{% endblock %}{% endfor %}{{ self.b() }}{% endfor %}"),
+    ("block-in-setblock-in-with-self-after", "{% with V = 1 %}{% set z %}{% block b %}{{ E }}{% endblock %}{% endset %}{% endwith %}{{ self.b() }}"),
+    ("block-in-for-else-self-after", "{% for V in [] %}a{% else %}{% with V = 2 %}{% block b %}{{ E }}{% endblock %}{% endwith %}{% endfor %}{{ self.b() }}"),
+    ("block-in-for-self-in-set", "{% for V in l %}{% block b %}{{ E }}{% endblock %}{% endfor %}{% set z = self.b() %}"),
+    ("block-in-for-self-in-filter-arg", "{% for V in l %}{% block b %}{{ E }}{% endblock %}{% endfor %}{{ 'a'|default(self.b()) }}"),
     ("raw-neighbour", "{% raw %}{{ V }}{% endraw %}{{ E }}"),
 ]
 # positions that need a call expression
@@ -412,6 +434,51 @@ def extension_mutation(body, rng):
     return body
 
 
+def has_loop_control(st):
+    if st[0] in ("break", "continue"):
+        return True
+    return any(has_loop_control(x) for b in proggen._sub_bodies(st) for x in b) or (st[0] == "block" and any(has_loop_control(x) for x in st[2]))
+
+
+def block_mutation(body, rng):
+    """Engine-side only: wraps statements (at any depth outside macros and call blocks) into named blocks and
+    renders these blocks once more through self.name() at places outside any block."""
+    names = []
+
+    def wrap(b, in_block):
+        out = []
+        for st in b:
+            t = st[0]
+            if t == "if": st = ("if", [(c, wrap(x, in_block)) for c, x in st[1]], None if st[2] is None else wrap(st[2], in_block))
+            elif t == "for": st = ("for", st[1], st[2], st[3], wrap(st[4], in_block), None if st[5] is None else wrap(st[5], in_block), st[6])
+            elif t in ("with", "filterblock", "autoescape"): st = (t, st[1], wrap(st[2], in_block))
+            elif t == "setblock": st = ("setblock", st[1], wrap(st[2], in_block), st[3])
+            if len(names) < 4 and not has_loop_control(st) and st[0] not in ("macro", "callblock") and rng.chance(1, 5):
+                nm = "blk%d" % len(names)
+                names.append(nm)
+                st = ("block", nm, [st])
+            out.append(st)
+        return out
+
+    def call(b, depth):
+        out = []
+        for st in b:
+            t = st[0]
+            if depth < 2:
+                if t == "for": st = ("for", st[1], st[2], st[3], call(st[4], depth + 1), st[5], st[6])
+                elif t == "with": st = ("with", st[1], call(st[2], depth + 1))
+                elif t == "macro": st = ("macro", st[1], st[2], st[3], call(st[4], depth + 1))
+                elif t == "if": st = ("if", [(c, call(x, depth + 1)) for c, x in st[1]], st[2])
+            if names and rng.chance(1, 4):
+                out.append(("emit", ("selfcall", rng.choice(names))))
+            out.append(st)
+        if names and (depth == 0 or rng.chance(1, 3)):
+            out.append(("emit", ("selfcall", rng.choice(names))))
+        return out
+    body = wrap(body, False)
+    return call(body, 0) if names else None
+
+
 def gen_programs(chk, n):
     progs = []
     for j in range(n):
@@ -642,6 +709,32 @@ def main():
                         dbg_only.append(i)
                     else:
                         direct.append((i, rel, md))          # debug info only matters on the error path
+    # ---------------- leg 2b: the same programs with blocks and self.name() calls (engine only) ------------
+    nb = len(progs) if chk.thorough else min(len(progs), 2000)
+    bprogs = []
+    for body, ctx in progs[:nb]:
+        bb = block_mutation(body, chk.rng)
+        if bb is not None:
+            bprogs.append((bb, ctx))
+    breqs = [req_t(proggen.body_src(b), ctx) for b, ctx in bprogs]
+    bdirect = []
+    for rel in (False, True):
+        bres = run_c18(breqs, release=rel)
+        n_eval += len(bres)
+        for i, r in enumerate(bres):
+            mm = missing_of(r)
+            if mm is None:
+                if not rel:
+                    hist["block_program_rejected"] += 1
+                continue
+            if not rel:
+                hist["block_program_render_" + ("ok" if "ok" in r["render"] else "err")] += 1
+                if r["asked"]:
+                    nontriv.add(breqs[i]["tpl"] + json.dumps(bprogs[i][1], sort_keys=True))
+            if mm[0] or mm[1]:
+                bdirect.append((i, rel, mm))
+    chk.cov["block_leg"] = {"programs": len(bprogs), "violations": len(bdirect),
+                            "sample": breqs[0]["tpl"][:400] if breqs else None}
     small = sorted(range(len(cases)), key=lambda i: len(cases[i]))[:10]
     kern = kernel_eval("asks", [cases[i] for i in small], "k_C18", imports="Common.Base C18.Runner")
     kern_ok = kern is not None and all(kern[j] == model[small[j]] for j in range(len(small)))
@@ -695,6 +788,25 @@ def main():
         chk.violation("undeclared_variables omits a variable the render reads (generated program)",
                       {"template": src, "context": ctx, "asked": r["asked"], "reported": r["flat"], "reported_nested": r["nested"],
                        "missing": m2[0], "missing_nested": m2[1], "profile": "release" if rel else "debug", "ast": repr(sb)})
+    seenb = set()
+    for i, rel, mm in bdirect[:40]:
+        if len(seenb) >= 4:
+            break
+        body, ctx = bprogs[i]
+        def stillb(b):
+            r = run_c18([req_t(proggen.body_src(b), ctx)], release=rel)[0]
+            m2 = missing_of(r)
+            return bool(m2 and (m2[0] or m2[1]))
+        sb = proggen.shrink(body, stillb, budget=120)
+        src = proggen.body_src(sb)
+        if src in seenb:
+            continue
+        seenb.add(src)
+        r = run_c18([req_t(src, ctx)], release=rel)[0]
+        m2 = missing_of(r)
+        chk.violation("undeclared_variables omits a variable the render reads (generated program with blocks and self calls)",
+                      {"template": src, "context": ctx, "asked": r["asked"], "reported": r["flat"], "reported_nested": r["nested"],
+                       "missing": m2[0], "missing_nested": m2[1], "profile": "release" if rel else "debug"})
     if dbg_only or kf_seen:
         if kentry is not None:
             chk.known_finding(kentry["id"], kentry["what"])
